@@ -27,6 +27,7 @@ func checkC16(p *Prog, r *Report) {
 	checkAllCandidates(p, r)
 	checkEveryOffset(p, r)
 	checkTagOrder(p, r)
+	checkRollAfterReset(p, r)
 	checkWindowNotCached(p, r, "C16/WINDOW-NOT-CACHED")
 	r.Trust("MD4 and the weak checksum as defined in rsyncchecksum (agreement of both ends: C02/ONE-DEFINITION)")
 	r.Uncovered("the rolling-checksum algebra (s1/s2 update ≡ Checksum1 of the shifted window), the tag function, block-size selection, the `end` bound, and therefore the quantitative bound on literal bytes: arithmetic over runtime data, not decidable by structural rules")
@@ -886,4 +887,108 @@ func freshAllocValue(v ssa.Value) bool {
 		return n > 0
 	}
 	return false
+}
+
+// checkRollAfterReset — C16/ROLL-AFTER-RESET. In the offset loop the rolling
+// checksum is either rolled (oldest byte out, next byte in) or recomputed from
+// scratch for the window at the current position (readChunk). A recompute is
+// always for the CURRENT position and must be followed by the roll before the
+// position advances; a recompute placed after the roll of the same iteration
+// leaves s1/s2 one byte behind the position for the rest of the file, and no
+// block matches any more.
+func checkRollAfterReset(p *Prog, r *Report) {
+	rule := "C16/ROLL-AFTER-RESET"
+	r.Rule(rule, "inside the offset loop of the search, a from-scratch recomputation of the rolling checksum (anything that reaches rsyncchecksum.Checksum1) is never dominated by the rolling update of the same iteration (the code that feeds rsyncchecksum.SignExtend of the outgoing/incoming byte into s1/s2): recompute, then roll, then advance — never roll, recompute, advance", 1)
+	g := p.ModGraph()
+	_, ems := blockRefEmissions(p, g)
+	if len(ems) == 0 {
+		r.Unk(rule, "block-reference emission", "-", "no matched(…, i) emission found in the hashSearch unit")
+		return
+	}
+	reaches := func(fn *ssa.Function, target string, depth int) bool {
+		var walk func(f *ssa.Function, d int) bool
+		seen := map[*ssa.Function]bool{}
+		walk = func(f *ssa.Function, d int) bool {
+			if f == nil || f.Blocks == nil || seen[f] || d > depth {
+				return false
+			}
+			seen[f] = true
+			hit := false
+			allCalls(f, func(c ssa.CallInstruction) {
+				if calleeName(c) == target {
+					hit = true
+				}
+				if sc := c.Common().StaticCallee(); sc != nil && pkgPathOfFunc(sc) == pkgSender && walk(sc, d+1) {
+					hit = true
+				}
+				if mc, ok := c.Common().Value.(*ssa.MakeClosure); ok {
+					if lit, ok := mc.Fn.(*ssa.Function); ok && walk(lit, d+1) {
+						hit = true
+					}
+				}
+				// a call through a local holding a closure
+				if ld := unwrapLocal(c.Common().Value); ld != nil {
+					if mc, ok := ld.(*ssa.MakeClosure); ok {
+						if lit, ok := mc.Fn.(*ssa.Function); ok && walk(lit, d+1) {
+							hit = true
+						}
+					}
+				}
+			})
+			return hit
+		}
+		return walk(fn, 0)
+	}
+	siteReaches := func(c ssa.CallInstruction, target string) bool {
+		if calleeName(c) == target {
+			return true
+		}
+		if sc := c.Common().StaticCallee(); sc != nil && pkgPathOfFunc(sc) == pkgSender {
+			return reaches(sc, target, 2)
+		}
+		v := unwrapLocal(c.Common().Value)
+		if mc, ok := v.(*ssa.MakeClosure); ok {
+			if lit, ok := mc.Fn.(*ssa.Function); ok {
+				return reaches(lit, target, 2)
+			}
+		}
+		return false
+	}
+	for _, m := range ems {
+		fn := m.Parent()
+		loops := naturalLoops(fn)
+		ls := loopsContaining(loops, m.Block())
+		if len(ls) == 0 {
+			r.OK(rule, funcKey(fn)+" recompute precedes roll", p.Pos(instrPos(m)), "not evaluated: the emission is not inside the offset loop of its own function")
+			continue
+		}
+		outer := ls[len(ls)-1]
+		var rolls, resets []ssa.CallInstruction
+		allCalls(fn, func(c ssa.CallInstruction) {
+			if !outer.body[c.Block()] {
+				return
+			}
+			isReset := siteReaches(c, pkgChecksum+".Checksum1")
+			isRoll := siteReaches(c, pkgChecksum+".SignExtend") && !isReset
+			if isReset {
+				resets = append(resets, c)
+			} else if isRoll {
+				rolls = append(rolls, c)
+			}
+		})
+		if len(rolls) == 0 || len(resets) == 0 {
+			r.Info("C16/ROLL-AFTER-RESET: roll (%d) or recompute (%d) sites not found inside the offset loop of %s; rule not evaluated for this shape", len(rolls), len(resets), funcKey(fn))
+			r.OK(rule, funcKey(fn)+" recompute precedes roll", p.Pos(instrPos(m)), "not evaluated: roll/recompute sites not recognised")
+			continue
+		}
+		bad := ""
+		for _, rs := range resets {
+			for _, ro := range rolls {
+				if InstrDominates(ro, rs) {
+					bad = p.Pos(instrPos(rs))
+				}
+			}
+		}
+		r.Cond(bad == "", rule, funcKey(fn)+" recompute precedes roll", p.Pos(instrPos(m)), "the rolling checksum is recomputed from scratch at "+bad+" after it was already rolled in this iteration: the position then advances without a roll and s1/s2 stay one byte behind — nothing matches for the rest of the file")
+	}
 }
